@@ -1838,8 +1838,11 @@ impl FunctionDef {
                 // Build local bindings for this call (O(1) - no clone of parent environment!)
                 let mut local_bindings = HashMap::new();
 
-                // Add self-reference if named
-                if let Some(fn_name) = name {
+                // Add self-reference if named, unless a value of that name was captured when the
+                // function was created: the body sees what it captured
+                if let Some(fn_name) = name
+                    && !scope.contains_key(fn_name)
+                {
                     local_bindings.insert(fn_name.clone(), this_value);
                 }
 
